@@ -362,7 +362,7 @@ impl Inner {
     ensures
         deep(snap.counters) == self.counters_of(self.registry.counter_seq()),
         deep(snap.gauges) == self.gauges_of(self.registry.gauge_seq()),
-//@AFTER 1 let counter_handles = self.registry.get_counter_handles();
+//@AFTER 1 let counter_handles =
         let ghost cs = self.registry.counter_seq();
 //@LOOP 1
             invariant
@@ -393,7 +393,7 @@ impl Inner {
             }
 //@AFTERLOOP 1
         proof { assert(cs.take(cs.len() as int) =~= cs); }
-//@AFTER 1 let gauge_handles = self.registry.get_gauge_handles();
+//@AFTER 1 let gauge_handles =
         let ghost gs = self.registry.gauge_seq();
 //@LOOP 2
             invariant
@@ -577,17 +577,17 @@ impl Inner {
                             invariant output@ == text_of(tr), scan(tr) == (Scan::InFamily { fam: fam_spec(name@, unit) }),
 //@LOOP 8
                         invariant output@ == text_of(tr), scan(tr) == (Scan::InFamily { fam: fam_spec(name@, unit) }),
-//@AFTER 1 write_help_line(&mut output, family_name.as_str(), desc);
+//@AFTER 1 stmt:write_help_line(
                 proof { lemma_push(tr, Line::Help { name: fam_spec(name@, unit) }); tr = tr.push(Line::Help { name: fam_spec(name@, unit) }); }
-//@AFTER 2 write_help_line(&mut output, family_name.as_str(), desc);
+//@AFTER 2 stmt:write_help_line(
                 proof { lemma_push(tr, Line::Help { name: fam_spec(name@, unit) }); tr = tr.push(Line::Help { name: fam_spec(name@, unit) }); }
-//@AFTER 3 write_help_line(&mut output, family_name.as_str(), desc);
+//@AFTER 3 stmt:write_help_line(
                 proof { lemma_push(tr, Line::Help { name: fam_spec(name@, unit) }); tr = tr.push(Line::Help { name: fam_spec(name@, unit) }); }
-//@AFTER 1 write_type_line(&mut output, family_name.as_str(), "counter");
+//@AFTER 1 stmt:write_type_line(
             proof { let l = Line::Type { name: fam_spec(name@, unit), ty: "counter"@ }; lemma_push(tr, l); tr = tr.push(l); }
-//@AFTER 1 write_type_line(&mut output, family_name.as_str(), "gauge");
+//@AFTER 2 stmt:write_type_line(
             proof { let l = Line::Type { name: fam_spec(name@, unit), ty: "gauge"@ }; lemma_push(tr, l); tr = tr.push(l); }
-//@AFTER 1 write_type_line(&mut output, family_name.as_str(), distribution_type);
+//@AFTER 3 stmt:write_type_line(
             proof {
                 // the TYPE of a distribution family is decided by the metric's own (bare) name -- the name its distributions were built for
                 assert(distribution_type@ == self.distribution_builder.dist_type(name@));
@@ -676,7 +676,7 @@ impl PrometheusRecorder {
     requires obeys_key_model::<String>(),
 //@AFTER 1 self.inner.descriptions.write().unwrap_or_else(PoisonError::into_inner);
         let ghost m0 = (*wguarded(&descriptions))@;
-//@AFTER 1 descriptions.entry(sanitized).or_insert((description, unit));
+//@AFTER 1 stmt:descriptions.entry(
         // HELP shows the FIRST description given for a (sanitised) name: an existing entry is never replaced
         proof {
             let m1 = (*wguarded(&descriptions))@;
